@@ -66,9 +66,9 @@ if __import__('os').environ.get('STDNUM_VERIF'):  # pragma: no cover
 def _get_cc_module(cc):
     """Get the VAT number module based on the country code."""
     # Greece uses a "wrong" country code, special case for Northern Ireland
-    cc = cc.lower().replace('el', 'gr').replace('xi', 'gb')
-    if not re.match(r'^[a-z]{2}$', cc):
+    if not re.match(r'^[a-zA-Z]{2}$', cc):
         raise InvalidFormat()
+    cc = cc.lower().replace('el', 'gr').replace('xi', 'gb')
     if _vh: _vh.event('vatin', 'enter', cc)  # pragma: no cover
     if cc not in _country_modules:
         if _vh: _vh.event('vatin', 'miss', cc)  # pragma: no cover
